@@ -95,6 +95,39 @@ where
     Ok(Built { payload, footer, assertion: i, msg: msg_bytes })
 }
 
+/// v1.public: RSA-PSS signatures are randomised, and the `s + n` mutant exists only for signatures
+/// below 2^2048 - n (a quarter of them or fewer, depending on the key): sign again, up to 16 times,
+/// until the signature leaves room for it.
+pub fn build_with_room<B: Backend, P: Purpose, M: Payload + Clone>(c: &TokCase, key: &Key<V<B>, P::SealingKey>, m: M, msg_bytes: Vec<u8>) -> Result<Built, Fail>
+where
+    V<B>: SealingVersion<P>,
+{
+    let mut b = build::<B, P, M>(c, key, m.clone(), msg_bytes.clone())?;
+    if !(c.public && B::VER == Ver::V1) {
+        return Ok(b);
+    }
+    let Some(n) = rsa_modulus::<B>(&c.key) else { return Ok(b) };
+    let fits = |b: &Built| -> bool {
+        let pl = b.payload.len();
+        if pl < n.len() {
+            return false;
+        }
+        let s = &b.payload[pl - n.len()..];
+        let mut carry = 0u16;
+        for i in (0..n.len()).rev() {
+            carry = (s[i] as u16 + n[i] as u16 + carry) >> 8;
+        }
+        carry == 0
+    };
+    for _ in 0..16 {
+        if fits(&b) {
+            break;
+        }
+        b = build::<B, P, M>(c, key, m.clone(), msg_bytes.clone())?;
+    }
+    Ok(b)
+}
+
 /// Parse "<header><b64 payload>[.<b64 footer>]" on back end T and unseal it.
 pub fn attempt<T: Backend, P: Aliases<V<T>>, M: Payload>(
     payload: &[u8],
@@ -215,7 +248,7 @@ pub fn run_token<B: Backend>(acc: &mut Acc, c: &TokCase, filter: Option<&MutId>)
     let ctl_id = MutId { class: "control".into(), pos: 0, arg: 0 };
     macro_rules! body {
         ($P:ty, $sealkey:expr, $unsealkey:expr, $keyvars:expr, $otherP:ty, $otherkey:expr, $otherpurpose:expr) => {{
-            let built = match build::<B, $P, Raw>(c, &$sealkey, Raw(m.clone()), m.clone()) {
+            let built = match build_with_room::<B, $P, Raw>(c, &$sealkey, Raw(m.clone()), m.clone()) {
                 Ok(b) => b,
                 Err(f) => {
                     acc.fail(f, serde_json::to_value(&ReplayCase { tok: c.clone(), mutant: ctl_id.clone() }).unwrap());
@@ -242,12 +275,14 @@ pub fn run_token<B: Backend>(acc: &mut Acc, c: &TokCase, filter: Option<&MutId>)
                     }
                 }
             }
+            let modulus: Option<Vec<u8>> = if c.public && B::VER == Ver::V1 { rsa_modulus::<B>(&c.key) } else { None };
             let parts = TokenParts {
                 payload: &built.payload,
                 footer: &built.footer,
                 assertion: &built.assertion,
                 prefix: if c.public { 0 } else { B::VER.local_nonce_len() },
                 suffix: if c.public { B::VER.sig_len() } else { B::VER.local_tag_len() },
+                modulus: modulus.as_deref(),
             };
             let min_len = parts.prefix + parts.suffix;
             for mt in faults::token_mutants(&parts, B::VER.has_assertion(), hash_of(c), full_limit) {
@@ -629,6 +664,18 @@ fn enc_case<B: Backend>(c: &EncCase, acc: &mut Acc) -> R {
         let k = local_key::<B>(&c.key);
         if c.from_suffixed { enc_relabel::<B, Local, RawS, Raw>(acc, c, &k, &k) } else { enc_relabel::<B, Local, Raw, RawS>(acc, c, &k, &k) }
     }
+}
+
+/// the public modulus (256 bytes, big endian) of the v1 signing key derived from a key seed
+pub fn rsa_modulus<B: Backend>(key: &KeySeed) -> Option<Vec<u8>> {
+    let sk = secret_bytes(B::VER, key);
+    let pk = public_bytes(B::VER, &sk);
+    let rp = model::rsa_pub_from_spki(&model::pem_to_der(&pk)).ok()?;
+    let mut n = rp.n.to_bytes_be();
+    while n.len() < 256 {
+        n.insert(0, 0);
+    }
+    Some(n)
 }
 
 pub fn enc_strategy<B: Backend>() -> impl Strategy<Value = EncCase> {
